@@ -779,6 +779,15 @@ namespace ip {
 	{
 		int remote = m_channel->remote_idx(m_bound_to);
 		p.hops = m_channel->hops[remote];
+
+		// the segment is no longer in flight. If its bytes stayed accounted for,
+		// the window would never open again for the retransmission
+		auto const it = m_outstanding_packet_sizes.find(p.seq_nr);
+		if (it != m_outstanding_packet_sizes.end())
+		{
+			m_bytes_in_flight -= it->second;
+			m_outstanding_packet_sizes.erase(it);
+		}
 		m_outgoing_packets.push_back(std::move(p));
 
 		const int packets_in_cwnd = m_cwnd / m_mss;
